@@ -1,7 +1,8 @@
 """C10 — automatic Kramers-Kronig testing tracks the noise and flags drift (DESIGN.md section 4, C10).
 
-A statement about distributions, decided against bands calibrated once on the unchanged tree (200 runs: estimated /
-injected noise in 0.78..2.48; drift chi-squared ratio >= 18 at 0.02 %) and then frozen with a wide safety factor.
+A statement about distributions, decided against bands calibrated on the unchanged tree (1516 runs: estimated /
+injected noise in 0.76..2.0 with one outlier at 7.9; drift chi-squared ratio >= 4.3) and then frozen: the noise clause
+is a *rate* (at most max(2, 1.5 %) of the runs outside [0.3, 5]), the drift clause a per-pair threshold (>= 2).
 """
 from __future__ import annotations
 
@@ -17,14 +18,14 @@ PROPERTY = "C10"
 RULE = (
     "The 19 bundled valid mock circuits (and their 16 drift-corrupted counterparts) and Hypothesis-generated RC/RQ ladders x "
     "Gaussian noise of relative standard deviation sigma log-uniform in 0.02..1 % x drawn integer RNG seeds, through "
-    "perform_exploratory_kramers_kronig_tests with default settings. Oracle: estimated noise / sigma in [0.3, 5] (observed "
-    "0.78..2.48 over 200 calibration runs); suggested num_RC within the limits returned by the same call and equal to the "
+    "perform_exploratory_kramers_kronig_tests with default settings. Oracle: estimated noise / sigma in [0.3, 5] in all but "
+    "max(2, 1.5 %) of the runs (a rate: 1 run of 1516 is outside on the unchanged tree, 0.76..2.0 otherwise); suggested num_RC within the limits returned by the same call and equal to the "
     "num_RC of the returned result; for circuits with a drift-corrupted counterpart and sigma <= 0.03 %: chi-squared(invalid) / "
-    "chi-squared(valid) >= 3 (observed >= 8 for the circuit with the weakest bundled drift, CIRCUIT_16; >= 40 for the others). Every run is noisy, so every run is non-trivial; distinct over (circuit, "
+    "chi-squared(valid) >= 2 (observed >= 4.3 over 440 pairs, the minimum at the circuit with the weakest bundled drift, CIRCUIT_16; >= 40 for the others). Every run is noisy, so every run is non-trivial; distinct over (circuit, "
     "sigma, seed)."
 )
 ASSUMPTIONS = [
-    "bands calibrated once on the unchanged tree and frozen (safety factors x2.6 / x2 / x2.6): the check detects gross mis-calibration, not small biases",
+    "bands calibrated once on the unchanged tree and frozen (safety factors x2.5 on either side of the observed 0.76..2.0; x2 on the weakest drift ratio): the check detects gross mis-calibration, not small biases",
     "the drift clause is only claimed where the bundled drift is above the noise floor (sigma <= 0.03 %: the ratio falls with 1/sigma^2 and CIRCUIT_16's drift reaches only 2.4..6.8 at 0.05 %)",
 ]
 SHARDS = {"quick": 8, "thorough": 16}
@@ -62,7 +63,11 @@ def body(ctx, case):
     est = float(res.get_estimated_percent_noise())
     ratio = est / case["sigma"]
     ctx.observe("estimated/injected:" + case["kind"], ratio)
-    ctx.check(0.3 <= ratio <= 5.0, "noise-tracked", case, f"estimated noise {est:.4g} % vs injected {case['sigma']:.4g} % (ratio {ratio:.2f}); num_RC {res.num_RC}, {'Y' if res.admittance else 'Z'}")
+    # a statement over the noise distribution: one run outside the band is an outlier of the heuristics (1 in 1516 on the
+    # unchanged tree: CIRCUIT_10, sigma 0.028 %, seed 5630 -> 7.9), the *rate* of such runs is what the check judges (post)
+    labels.add("noise-in-band" if 0.3 <= ratio <= 5.0 else "noise-outside-band")
+    if not 0.3 <= ratio <= 5.0:
+        ctx.observe("outside-band-ratio", ratio)
     ctx.check(lo <= res.num_RC <= hi and any(t is res or (t.num_RC == res.num_RC and t.pseudo_chisqr == res.pseudo_chisqr) for t in tests), "num_RC-within-reported-limits", case,
               f"suggested num_RC {res.num_RC} with reported limits [{lo}, {hi}]; tested {[t.num_RC for t in tests][:3]}..{tests[-1].num_RC}")
     if case["kind"] == "mock" and case["id"] <= 16 and case["sigma"] <= 0.03:
@@ -70,7 +75,7 @@ def body(ctx, case):
         _, (res2, _, _, _) = perform_exploratory_kramers_kronig_tests(bad, num_procs=1)
         r = res2.pseudo_chisqr / res.pseudo_chisqr
         ctx.observe("drift-chisqr-ratio", r)
-        ctx.check(r >= 3.0, "drift-flagged", case, f"CIRCUIT_{case['id']}: chi-squared of the drift-corrupted spectrum is only {r:.2f} x that of the valid one")
+        ctx.check(r >= 2.0, "drift-flagged", case, f"CIRCUIT_{case['id']}: chi-squared of the drift-corrupted spectrum is only {r:.2f} x that of the valid one")
         ctx.check(not np.array_equal(bad.get_impedances(), data.get_impedances()), "drift-flagged", case, "the drift-corrupted mock spectrum is identical to the valid one")
         labels.add("drift-twin")
     ctx.record(case, True, sorted(labels))
@@ -87,3 +92,15 @@ def parts(ctx):
         Part("drift-twins", body, items=all_twins, exhaustive=True, budget_s={"quick": 200, "thorough": 600}, case_timeout_s=180),
         Part("noise", body, strategy=case_strategy(), n={"quick": 160, "thorough": 1500}, budget_s={"quick": 200, "thorough": 3000}, case_timeout_s=180),
     ]
+
+
+def post(merged, tier):
+    """Frozen rate: at most max(2, 1.5 %) of the runs may estimate the noise outside [0.3, 5] x the injected level."""
+    cl = merged["classes"]
+    out, inside = cl.get("noise-outside-band", 0), cl.get("noise-in-band", 0)
+    n = out + inside
+    allowed = max(2, int(0.015 * n))
+    if n >= 30 and out > allowed:
+        return [{"part": "noise", "clause": "noise-tracked", "case": {"runs": n, "outside_band": out, "allowed": allowed},
+                 "detail": f"{out} of {n} runs estimate the noise outside [0.3, 5] x the injected level (allowed: {allowed}; 1 of 1516 on the unchanged tree)"}]
+    return []
